@@ -278,7 +278,20 @@ fn select_root(sh: &Arc<Sh>, seed: u64) -> u64 {
     value_of(0)
 }
 
+extern "C" {
+    fn signal(sig: i32, h: extern "C" fn(i32)) -> usize;
+}
+/// a crash of the real code (use after free ...) still leaves the trace behind: exit code 5
+extern "C" fn on_segv(_s: i32) {
+    println!("CRASH SIGSEGV in the code under test");
+    mayv::finish(mayv::ctl(), 5);
+}
+
 fn main() {
+    unsafe {
+        signal(11, on_segv);
+        signal(7, on_segv);
+    }
     let mut cfg = Config::from_env();
     if envs("MAYV_SCHED", "narrow") == "narrow" {
         cfg.sched_files = vec!["src/scoped.rs", "src/join.rs", "src/cancel.rs", "src/park.rs", "src/sync/blocking.rs", "src/cqueue.rs", "src/sync/atomic_option.rs"];
